@@ -9,6 +9,9 @@ CHECKS = {
  "C03": dict(cat="model_checking", tech="explicit-state product raw x minimized automaton, reachability, Moore partition refinement",
    text="For every automaton of the enumerated family (main and every within-word automaton rebuilt raw from its regex): the raw x minimized product is explored completely (language preserved), every minimized state is shown reachable and co-reachable, and an independent Moore refinement shows all states pairwise distinguishable and the size equal to the harness's own minimal automaton.",
    note="trusted: harness Moore refinement/trim (unit-tested); verif accessors", ref="4/C03"),
+ "C06": dict(cat="fault_enumeration", tech="deviation-bounded fault enumeration (all single, for tiny seeds all double, token/byte deviations of every seed) in disposable worker processes + real binary runs",
+   text="All single deviations of every seed (double for tiny seeds) and all raw strings up to length 2 run through the library pipeline, four emitters and both DOT writers inside worker processes whose death or stall pinpoints the input; the real binary is run on every seed x shell x destination kind, on a representative of every distinct library outcome class, on all deviations of the smallest seeds and on invalid UTF-8, judged by exit status, stderr, stdout, destination file and byte-equality with the library pipeline.",
+   note="trusted: worker/progress protocol; 10 s stall/timeout limits; 'complete script' = ends with the shell's registration trailer", ref="4/C06"),
  "C08": dict(cat="fault_enumeration", tech="exhaustive placement of every mistake class in every context + verdict of every enumerated grammar against an independent mistake classifier",
    text="Every mistake class of the statement is planted in every context of a fixed context list (every nesting operator, 1-2 definition levels, word/non-word, statement orders, reachability situations for cycles) for all four shells, and additionally every tree of the bounded family is classified by the reference classifier R8; the library pipeline must accept exactly the clean ones and reject the others with a diagnostic of a planted class.",
    note="trusted: reference classifier harness/src/r8.rs; shapes on which statement and code can be read either way are counted as skipped, not judged", ref="4/C08"),
